@@ -760,8 +760,29 @@ fn check_peek(name: &str, got: Option<Pair>, m: &Model, hi: bool, unordered: boo
     Ok(())
 }
 
+/// The hook must not lie: `Debug` prints the entries in heap order as `Index(slot): (item, prio)`,
+/// independently of the hook.
+pub fn check_hook_against_debug<Q: QueueLike>(q: &Q) -> Result<(), String> {
+    let dbg = q.q_debug();
+    let mut heap = vec![];
+    let mut rest = dbg.as_str();
+    while let Some(i) = rest.find("Index(") {
+        rest = &rest[i + 6..];
+        let end = rest.find(')').unwrap_or(0);
+        if let Ok(v) = rest[..end].parse::<usize>() {
+            heap.push(v);
+        }
+    }
+    let s = q.snap();
+    if heap != s.heap {
+        return Err(format!("the hook reports heap {:?} but Debug prints the entries in order {:?}", s.heap, heap));
+    }
+    Ok(())
+}
+
 /// Deeper, consuming checks on clones (run once per unique state).
 pub fn check_deep<Q: QueueLike>(q: &Q, m: &Model, unordered: bool) -> Result<(), String> {
+    check_hook_against_debug(q)?;
     // drain a clone from the high end
     let mut c = q.clone();
     let mut mm = m.clone();
